@@ -1,1 +1,4 @@
 -- modules of work area Limits (add imports here)
+import AM.Model.Bucket
+import AM.Lemmas.AListCount
+import AM.Props.C18Bucket
